@@ -948,6 +948,11 @@ func (c *Ctx) c07Mem(sm *storeModel) {
 	}
 
 	c.fileIDUnique("C07/ID/file-unique")
+	// what a mailbox holds is judged from its index on disk, never from a list that was not
+	// loaded: a decision taken on an unloaded (empty-looking) list — "nothing here, remove the
+	// directory" — destroys a populated mailbox (decided by C10's load-before-use rule)
+	nLd := c.borrow(checkC10, "C10/NO-MEMORY-STATE/reads-messages", "C07/FILE/index-loaded-before-use", "every function of the file store that reads mbox.messages does so after the load-if-needed guard")
+	r.Floor("C07/FILE/index-loaded-before-use", "borrowed obligations", nLd, 3)
 	// 'latest' on an empty mailbox, and any other last-element or fixed-position access in the stores
 	c.idxOnlyLenMinus = true
 	c.parserIndex("C07/PANIC/last-element/mem", "pkg/storage/mem", nil, "memory store", 1)
